@@ -1,7 +1,7 @@
 """Configuration of the C10 check (see lib/props.py)."""
 P = {'id': 'C10',
  'level': 'proof',
- 'theorems': ['ensure_pow2_correct', 'ring_refines_deque', 'ring_observable', 'wrap_growth_preserves_order', 'ring_clone_same_sequence', 'ring_clear_drops_each_once', 'ring_exactly_once', 'full_ring_le_refuted'],
+ 'theorems': ['ensure_pow2_correct', 'ring_refines_deque', 'ring_observable', 'wrap_growth_preserves_order', 'ring_clone_same_sequence', 'ring_clear_drops_each_once', 'ring_exactly_once', 'full_ring_le_refuted', 'fastvec_refines_list', 'fastvec_clear_drops_each_once', 'fastvec_clone_same_sequence', 'valvec32_reserve_capacity', 'valvec32_push_capacity'],
  'trusted': [],
  'assumptions': ['usize is 64 bits'],
  'level_text': 'wip',
